@@ -125,6 +125,11 @@ def finish(o: Outcome) -> int:
   for f, k in known_hits:
     lines.append(f"KNOWN-FINDING: property={o.prop} key={f.key} {k.what}")
   replay_paths = []
+  rdir = os.path.join(VERIF, "replay", o.prop)
+  if os.path.isdir(rdir):
+    for fn in os.listdir(rdir):
+      if fn.endswith(".json"):
+        os.unlink(os.path.join(rdir, fn))
   for f in violations:
     path = write_replay(o.prop, f)
     replay_paths.append(path)
